@@ -55,7 +55,7 @@ func newFileKey(cipher Cipher) (fileKey, error) {
 	}
 
 	// Return the object
-	return importFileKey(rnd[0:32], rnd[32:39], cipher)
+	return importFileKey(rnd[0:32:32], rnd[32:39], cipher)
 }
 
 func importFileKey(fileKey, noncePrefix []byte, cipher Cipher) (fk fileKey, err error) {
